@@ -81,6 +81,8 @@ fn oracle_rng(bytes: &[u8], salt: u64) -> Rng {
 }
 
 const METHODS: [&str; 4] = ["b", "c", "a", "r"];
+/// encoder only: S / T = `ZeroCopySink::append_borrow` / `append_copy` through `dyn ZeroCopySink`
+const ENC_METHODS: [&str; 6] = ["b", "c", "a", "r", "S", "T"];
 
 /// Real decoder on `wire`: one `decode` call (`plan = None`) or a random
 /// segmentation with mixed methods and interleaved drains.
@@ -266,6 +268,19 @@ impl Exec for EncExec {
     fn step(&mut self, w: &[&str]) -> StepOut {
         match w {
             ["seen", ..] => StepOut::default(),
+            // the public `hcobs::find_stuff_sequence`, called directly (track apigaps)
+            ["find", hex] => {
+                let Some(bytes) = from_hex(hex) else { return StepOut::bad() };
+                let got = hcobs::find_stuff_sequence(&bytes);
+                let mut so = StepOut::obs(format!("find={}", got.map(|i| i.to_string()).unwrap_or("none".into())));
+                let want = (0..bytes.len().saturating_sub(1)).find(|i| bytes[*i] == 0xFE && bytes[*i + 1] == 0xFD);
+                if got != want {
+                    so.violations.push(format!("C02 find_stuff_sequence returned {:?}, the first FE FD is at {:?}", got, want));
+                    so.violations.push(format!("C07 find_stuff_sequence returned {:?}, the first FE FD is at {:?}", got, want));
+                }
+                so.tags.push(if got.is_some() { "find_some".into() } else { "find_none".into() });
+                so
+            }
             ["params", rest @ ..] => {
                 self.run = None;
                 self.bufs.clear();
@@ -278,7 +293,7 @@ impl Exec for EncExec {
             }
             ["enc", m, hex] => {
                 let Some(bytes) = from_hex(hex) else { return StepOut::bad() };
-                if !METHODS.contains(m) {
+                if !ENC_METHODS.contains(m) {
                     return StepOut::bad();
                 }
                 let Some(run) = self.run.as_mut() else { return StepOut::bad() };
